@@ -26,6 +26,9 @@ def run(ctx):
     ctx.floor('C01.merge_results_n3', 50)
     core.run_slices(ctx, [
         (6, lambda: w_alg.drive_merge(ctx, ctx.tier)),
+        # the same merges over parameters that carry defaults and annotations (conciliation of metadata must not
+        # change which calls are accepted)
+        (2, lambda: w_alg.drive_merge(ctx, 'quick', pool=w_alg.MetaPool(ctx.rng('c01-meta')))),
         (2, lambda: w_misc.drive_session(ctx, ctx.tier)),     # long-lived signature objects through many operations
         (2, lambda: w_misc.drive_merge_clients(ctx, ctx.tier))])
 
